@@ -11,6 +11,14 @@
 // NewJSONFileStorage; in addition the helper is really killed by strace at
 // each of its system calls. Round trip: generated states (0..200 routers and
 // mappings, unicode / empty / long values) are saved, reloaded and compared.
+// Stage E (environments): which calls the shutdown write consists of depends on
+// what the kernel lets the router do in the state directory. The same T / M / R
+// chain is run for the real Stop() in environments in which the temporary file
+// cannot be created (its name is taken by a directory or a dead symbolic link;
+// the router's user owns the state file but may not create files next to it)
+// or cannot be renamed over the state file (sticky directory of another user).
+// A save that fails as a whole and leaves the previous state complete satisfies
+// the property; a shutdown that then writes in place does not.
 package main
 
 import (
@@ -311,6 +319,45 @@ func helper() {
 			fmt.Fprintln(os.Stderr, err)
 			os.Exit(3)
 		}
+		if sh := os.Getenv("VERIF_C18_SHADOW"); sh != "" {
+			// what this process is about to save, serialised the way Stop() does it, outside the state directory: the
+			// driver needs the bytes also when the environment makes the save fail as a whole
+			f := storage.JSONStorageFormat{Routers: map[netip.Addr]*storage.StoredRouter{}, Mappings: map[string]storage.StoredMapping{}}
+			q := storage.NewRouterQuery(nil, nil, 100000)
+			_ = s.QueryRouters(q)
+			for _, r := range q.Result() {
+				f.Routers[r.Address.IP] = r
+			}
+			ms, _ := s.QueryMappings("")
+			for _, mp := range ms {
+				f.Mappings[mp.Domain] = mp
+			}
+			b, err := json.Marshal(&f)
+			if err == nil {
+				err = os.WriteFile(sh, b, 0o644)
+			}
+			if err != nil {
+				fmt.Fprintln(os.Stderr, "shadow:", err)
+				os.Exit(3)
+			}
+		}
+		if u := os.Getenv("VERIF_C18_UID"); u != "" {
+			// the router runs as an unprivileged user from here on
+			uid, err := strconv.Atoi(u)
+			if err == nil {
+				err = syscall.Setgroups([]int{uid})
+			}
+			if err == nil {
+				err = syscall.Setgid(uid)
+			}
+			if err == nil {
+				err = syscall.Setuid(uid)
+			}
+			if err != nil || os.Geteuid() != uid {
+				fmt.Fprintln(os.Stderr, "setuid:", err)
+				os.Exit(3)
+			}
+		}
 		_, _ = os.Stderr.WriteString("C18-MARK-STOP\n")
 		err = s.Stop()
 		_, _ = os.Stderr.WriteString("C18-MARK-DONE\n")
@@ -493,8 +540,11 @@ var (
 
 const traceSet = "openat,open,creat,write,pwrite64,writev,fsync,fdatasync,rename,renameat,renameat2,unlink,unlinkat,close,ftruncate,truncate,link,linkat"
 
+// helperStderr is what the last helper run wrote to its standard error (the error of a failed Stop() is there).
+var helperStderr string
+
 // runStrace runs the helper under strace; inject (optional) is e.g. "write:signal=KILL:when=3".
-func runStrace(c *vf.Ctx, dir, target, contentFile, inject string) (lines []string, exit int, err error) {
+func runStrace(c *vf.Ctx, dir, target, contentFile, inject string, extraEnv ...string) (lines []string, exit int, err error) {
 	logf := filepath.Join(dir, fmt.Sprintf("strace-%d.log", time.Now().UnixNano()))
 	args := []string{"-f", "--seccomp-bpf", "-s", "32", "-o", logf, "-e", "trace=" + traceSet}
 	if inject != "" {
@@ -503,11 +553,12 @@ func runStrace(c *vf.Ctx, dir, target, contentFile, inject string) (lines []stri
 	self, _ := os.Executable()
 	args = append(args, self, target, contentFile)
 	cmd := exec.Command("strace", args...)
-	cmd.Env = append(os.Environ(), "VERIF_C18_HELPER=save")
+	cmd.Env = append(append(os.Environ(), "VERIF_C18_HELPER=save"), extraEnv...)
 	var stderr bytes.Buffer
 	cmd.Stderr = &stderr
 	runErr := cmd.Run()
 	exit = cmd.ProcessState.ExitCode()
+	helperStderr = stderr.String()
 	data, rerr := os.ReadFile(logf)
 	_ = os.Remove(logf)
 	if rerr != nil {
@@ -534,9 +585,21 @@ func runStrace(c *vf.Ctx, dir, target, contentFile, inject string) (lines []stri
 }
 
 // program extracts the calls Stop() made on the state directory.
-func program(lines []string, dir, target string) (prog []sysc, counts map[string]int, err error) {
+// failed lists the calls of Stop() on the state directory that the kernel refused (they are not part of the program:
+// they change nothing; they tell how the environment made itself felt).
+func program(lines []string, dir, target string) (prog []sysc, counts map[string]int, failed []string, err error) {
 	counts = map[string]int{}
 	inStop := false
+	reRet := regexp.MustCompile(`\)\s+= (-1 \w+)`)
+	fail := func(call, what, l string) {
+		if inStop {
+			e := "failed"
+			if mm := reRet.FindStringSubmatch(l); mm != nil {
+				e = mm[1]
+			}
+			failed = append(failed, fmt.Sprintf("%s(%s) = %s", call, what, e))
+		}
+	}
 	fdPath := map[int]string{}
 	name := func(p string) string {
 		if p == target {
@@ -572,7 +635,7 @@ func program(lines []string, dir, target string) (prog []sysc, counts map[string
 				continue
 			}
 			nm := name(strs[0][1])
-			if nm == "" {
+			if nm == "" || strings.Contains(argstr, "O_DIRECTORY") {
 				continue
 			}
 			if retN >= 0 {
@@ -582,6 +645,7 @@ func program(lines []string, dir, target string) (prog []sysc, counts map[string
 			s.Trunc = strings.Contains(argstr, "O_TRUNC") || call == "creat"
 			s.Creat = strings.Contains(argstr, "O_CREAT") || call == "creat"
 			if retN < 0 {
+				fail(call, nm, l)
 				continue
 			}
 		case "write", "pwrite64", "writev":
@@ -590,6 +654,7 @@ func program(lines []string, dir, target string) (prog []sysc, counts map[string
 				continue
 			}
 			if retN < 0 {
+				fail(call, fdPath[fd], l)
 				continue
 			}
 			s.Op, s.Fd, s.N = "write", fd, retN
@@ -615,10 +680,11 @@ func program(lines []string, dir, target string) (prog []sysc, counts map[string
 				continue
 			}
 			if retN != 0 {
+				fail(call, a+"->"+b, l)
 				continue
 			}
 			if strings.HasPrefix(call, "link") {
-				return nil, nil, fmt.Errorf("link() on the state directory is not modelled: %s", l)
+				return nil, nil, nil, fmt.Errorf("link() on the state directory is not modelled: %s", l)
 			}
 			s.Op, s.Name, s.Name2 = "rename", a, b
 		case "unlink", "unlinkat":
@@ -626,12 +692,16 @@ func program(lines []string, dir, target string) (prog []sysc, counts map[string
 				continue
 			}
 			nm := name(strs[0][1])
-			if nm == "" || retN != 0 {
+			if nm == "" {
+				continue
+			}
+			if retN != 0 {
+				fail(call, nm, l)
 				continue
 			}
 			s.Op, s.Name = "unlink", nm
 		case "ftruncate", "truncate":
-			return nil, nil, fmt.Errorf("truncate call on the state directory is not modelled: %s", l)
+			return nil, nil, nil, fmt.Errorf("truncate call on the state directory is not modelled: %s", l)
 		default:
 			continue
 		}
@@ -641,7 +711,7 @@ func program(lines []string, dir, target string) (prog []sysc, counts map[string
 		}
 		prog = append(prog, s)
 	}
-	return prog, counts, nil
+	return prog, counts, failed, nil
 }
 
 // ---------- materialising a kill state
@@ -759,18 +829,43 @@ func histString(path []killAct) string {
 	return strings.Join(out, ", ")
 }
 
+// sessionOf is the index of the open call that produced the file descriptor call i (0-based) uses, -1 if there is none.
+func sessionOf(prog []sysc, i int) int {
+	for j := i - 1; j >= 0; j-- {
+		if prog[j].Op == "open" && prog[j].Fd == prog[i].Fd {
+			return j
+		}
+	}
+	return -1
+}
+
+// sessions adds up the bytes the program wrote per session (a file descriptor between its open and its close).
+func sessions(prog []sysc) map[int]int {
+	out := map[int]int{}
+	for i, s := range prog {
+		if s.Op == "write" {
+			out[sessionOf(prog, i)] += s.N
+		}
+	}
+	return out
+}
+
 // writeLen is the concrete length of write call pc in a generation whose serialisation has total bytes
-// (the observed program wrote observed bytes in the same calls).
+// (the observed program wrote observed bytes in the calls of the same session; StateFile!WriteLen).
 func writeLen(prog []sysc, pc, total, observed int) int {
 	before := 0
 	last := true
+	ses := sessionOf(prog, pc-1)
+	same := func(j int) bool {
+		return prog[j].Op == "write" && prog[j].Fd == prog[pc-1].Fd && sessionOf(prog, j) == ses
+	}
 	for j := pc; j < len(prog); j++ {
-		if prog[j].Op == "write" {
+		if same(j) {
 			last = false
 		}
 	}
 	for j := 0; j < pc-1; j++ {
-		if prog[j].Op == "write" {
+		if same(j) {
 			before += prog[j].N * total / max(1, observed)
 		}
 	}
@@ -814,10 +909,19 @@ type histResult struct {
 // replayHistory executes a history of the model (steps, kills, restarts over several generations) on a real
 // directory; every restart and the final state are loaded by the real NewJSONFileStorage. k is the byte offset of
 // the final kill if it hits inside a write.
-func replayHistory(dir string, prog []sysc, vers map[int][]byte, observed int, path []killAct, k int, snaps map[int]string) (histResult, error) {
+//
+// fixture (optional) puts what the environment holds besides the state file into the fresh directory; refused: the
+// observed Stop() returned an error, so a completed shutdown need not have stored anything - what it leaves must
+// still be the complete previous or the complete new state.
+func replayHistory(dir string, prog []sysc, vers map[int][]byte, observed int, path []killAct, k int, snaps map[int]string, fixture func(dir string) error, refused bool) (histResult, error) {
 	_ = os.RemoveAll(dir)
 	if err := os.MkdirAll(dir, 0o755); err != nil {
 		return histResult{}, err
+	}
+	if fixture != nil {
+		if err := fixture(dir); err != nil {
+			return histResult{}, err
+		}
 	}
 	fpath := func(n string) string {
 		if n == "state" {
@@ -838,7 +942,8 @@ func replayHistory(dir string, prog []sysc, vers map[int][]byte, observed int, p
 		}
 	}
 	defer closeAll()
-	gen, written := 1, 0
+	gen := 1
+	written := map[int]int{} // per file descriptor: bytes of the serialisation handed over since its open
 	loadedSnap := snaps[-1]
 	if vers[0] != nil {
 		loadedSnap = snaps[0]
@@ -846,11 +951,15 @@ func replayHistory(dir string, prog []sysc, vers map[int][]byte, observed int, p
 	killedThisGen := false
 	write := func(s sysc, n int) error {
 		data := vers[gen]
-		if written+n > len(data) {
+		w := written[s.Fd]
+		if w+n > len(data) {
 			return fmt.Errorf("program writes more than the serialisation holds")
 		}
-		_, err := files[s.Fd].Write(data[written : written+n])
-		written += n
+		if files[s.Fd] == nil {
+			return fmt.Errorf("program writes through a descriptor that is not open")
+		}
+		_, err := files[s.Fd].Write(data[w : w+n])
+		written[s.Fd] = w + n
 		return err
 	}
 	for idx, a := range path {
@@ -872,6 +981,7 @@ func replayHistory(dir string, prog []sysc, vers map[int][]byte, observed int, p
 					return histResult{}, err
 				}
 				files[s.Fd] = f
+				written[s.Fd] = 0
 			case "write":
 				if err := write(s, writeLen(prog, a.Pc, len(vers[gen]), observed)); err != nil {
 					return histResult{}, err
@@ -886,7 +996,9 @@ func replayHistory(dir string, prog []sysc, vers map[int][]byte, observed int, p
 					return histResult{}, err
 				}
 			case "unlink":
-				if err := os.Remove(fpath(s.Name)); err != nil {
+				if fi, err := os.Lstat(fpath(s.Name)); err == nil && fi.IsDir() {
+					_ = os.RemoveAll(fpath(s.Name))
+				} else if err := os.Remove(fpath(s.Name)); err != nil {
 					return histResult{}, err
 				}
 			}
@@ -921,14 +1033,16 @@ func replayHistory(dir string, prog []sysc, vers map[int][]byte, observed int, p
 			switch {
 			case lerr != nil:
 				return histResult{"refuses-to-start", "a start refuses the state file", lerr}, nil
-			case !killedThisGen && snap != snaps[gen]:
+			case !killedThisGen && refused && snap != loadedSnap && snap != snaps[gen]:
+				return histResult{"failed-save-neither", "a shutdown whose save failed as a whole left neither the previous nor the new state", nil}, nil
+			case !killedThisGen && !refused && snap != snaps[gen]:
 				return histResult{"lost-save", "a completed shutdown did not store its state", nil}, nil
 			case killedThisGen && snap != loadedSnap && snap != snaps[gen]:
 				return histResult{"neither", "after a kill the start finds neither the previous nor the new state", nil}, nil
 			}
 			loadedSnap = snap
 			gen++
-			written = 0
+			written = map[int]int{}
 			killedThisGen = false
 			if _, ok := vers[gen]; !ok && !final {
 				return histResult{}, fmt.Errorf("no bytes for generation %d", gen)
@@ -936,6 +1050,136 @@ func replayHistory(dir string, prog []sysc, vers map[int][]byte, observed int, p
 		}
 	}
 	return histResult{}, nil
+}
+
+// ---------- environments
+
+type pair struct{ oldR, oldM, newR, newM int }
+
+// environment: where the router runs when it shuts down. The property quantifies over crash points of "the" shutdown
+// write; which system calls that write consists of depends on what the kernel lets the router do with the state
+// directory - so each environment gives its own program, and each program goes through the same analysis.
+type environment struct {
+	name, what string
+	uid        int                            // != 0: the shutting-down router runs as this user
+	setup      func(dir, target string) error // applied to the real directory once the old state file is in place
+	fixture    func(dir string) error         // what a materialised directory holds besides the state file
+}
+
+var envRan, envSkipped int
+
+const unprivileged = 65534
+
+// traversable: can a user that is neither owner nor group member reach path?
+func traversable(path string) bool {
+	for p := path; ; p = filepath.Dir(p) {
+		fi, err := os.Stat(p)
+		if err != nil || fi.Mode().Perm()&0o005 != 0o005 {
+			return false
+		}
+		if p == filepath.Dir(p) {
+			return true
+		}
+	}
+}
+
+// environments: stage E. The recorded program of the real Stop() in surroundings in which the usual way of writing
+// the file is not open to it: the name of the temporary file is taken by something that is not a file, the router's
+// user may write the state file but not create files next to it, or may create files but not replace the state file.
+func environments(c *vf.Ctx, rng *rand.Rand, base string, analyse func(pi int, label, dir string, p pair, env *environment)) {
+	t0 := time.Now()
+	tmpOf := func(dir string) string { return filepath.Join(dir, "state.json.tmp") }
+	blockers := []struct {
+		name, what string
+		make       func(tmp string) error
+	}{
+		{"tmp-is-empty-dir", "an empty directory", func(tmp string) error { return os.Mkdir(tmp, 0o755) }},
+		{"tmp-is-dir", "a directory that holds a file", func(tmp string) error {
+			if err := os.Mkdir(tmp, 0o755); err != nil {
+				return err
+			}
+			return os.WriteFile(filepath.Join(tmp, "keep"), []byte("x"), 0o644)
+		}},
+		{"tmp-is-dangling-link", "a symbolic link into a directory that does not exist", func(tmp string) error { return os.Symlink("no-such-dir/state.json.tmp", tmp) }},
+		{"tmp-is-link-loop", "a symbolic link to itself", func(tmp string) error { return os.Symlink("state.json.tmp", tmp) }},
+	}
+	var envs []environment
+	for _, b := range blockers {
+		mk := b.make
+		envs = append(envs, environment{
+			name: b.name, what: "the name <state>.tmp is taken by " + b.what,
+			setup:   func(dir, target string) error { return mk(tmpOf(dir)) },
+			fixture: func(dir string) error { return mk(tmpOf(dir)) },
+		})
+	}
+	root := os.Geteuid() == 0
+	if root {
+		envs = append(envs,
+			environment{name: "dir-not-writable", what: fmt.Sprintf("the router runs as user %d and owns the state file, the state directory is root's (0755)", unprivileged), uid: unprivileged,
+				setup: func(dir, target string) error {
+					if err := os.Chmod(dir, 0o755); err != nil {
+						return err
+					}
+					return os.Chown(target, unprivileged, unprivileged)
+				}},
+			// (rename(2) over a file in a sticky directory needs the ownership of the file or of the directory)
+			environment{name: "state-file-not-replaceable", what: fmt.Sprintf("the router runs as user %d in a sticky world-writable state directory of root, the state file (0666) is root's: it can be written but not renamed over", unprivileged), uid: unprivileged,
+				setup: func(dir, target string) error {
+					if err := os.Chmod(dir, os.ModeSticky|0o777); err != nil {
+						return err
+					}
+					return os.Chmod(target, 0o666)
+				}})
+	} else {
+		envs = append(envs, environment{name: "dir-not-writable", what: "the state directory is not writable (0555), the state file is",
+			setup: func(dir, target string) error { return os.Chmod(dir, 0o555) }})
+	}
+	// quick: two of the four blocked names (by the seed) and the user environments; thorough: all, twice
+	var chosen []environment
+	rounds := c.Pick(1, 2)
+	if c.Thorough() {
+		chosen = envs
+	} else {
+		chosen = append(chosen, envs[rng.Intn(2)], envs[2+rng.Intn(2)])
+		chosen = append(chosen, envs[len(blockers):]...)
+	}
+	// the unprivileged user must be able to reach the state directory
+	envBase := filepath.Join(base, "env")
+	cleanup := ""
+	if root {
+		_ = os.MkdirAll(envBase, 0o755)
+		if !traversable(envBase) {
+			d, err := os.MkdirTemp("", "verif-c18-env")
+			if err != nil || os.Chmod(d, 0o755) != nil || !traversable(d) {
+				c.Broken("environments: no directory an unprivileged user can reach (%v)", err)
+				return
+			}
+			envBase, cleanup = d, d
+		}
+	}
+	n := 0
+	for round := 0; round < rounds; round++ {
+		for _, e := range chosen {
+			e := e
+			// a previous state is there (the environments are about an existing state file); the new state is larger or
+			// smaller, now and then (nearly) empty
+			p := pair{oldR: 1 + rng.Intn(6), oldM: rng.Intn(4), newR: 1 + rng.Intn(c.Pick(10, 40)), newM: rng.Intn(6)}
+			if rng.Intn(5) == 0 {
+				p.newR, p.newM = rng.Intn(2), 0
+			}
+			label := fmt.Sprintf("env-%s-%d", e.name, round)
+			analyse(100+n, label, filepath.Join(envBase, label), p, &e)
+			n++
+		}
+	}
+	if cleanup != "" {
+		_ = os.RemoveAll(cleanup)
+	}
+	if envRan == 0 {
+		c.Broken("environments: none of %d could be set up", n)
+	}
+	c.Logf("stage E: %d environments (%d skipped) in %.1fs", envRan, envSkipped, time.Since(t0).Seconds())
+	c.Stage("E", map[string]any{"environments": envRan, "skipped": envSkipped})
 }
 
 func main() {
@@ -947,7 +1191,7 @@ func main() {
 }
 
 func run(c *vf.Ctx) {
-	c.Rule("T: the system calls of the real JSONFileStorage.Stop() (helper process under strace) become the program of StateFile; M: TLC kills the writer between any two calls and inside every write (Recoverable, SaveCompletes) and checks 4 candidate designs (2 negative controls); R: every kill state is materialised on disk - kills inside a write at EVERY byte offset (thorough) or 96 sampled offsets plus the edges (quick) - and loaded by the real NewJSONFileStorage; the helper is also really killed by strace at each of its calls; round trip of generated states of 0..200 routers and mappings (unicode, empty, 4 kB strings, extreme and zoned times, nil sub-objects)")
+	c.Rule("T: the system calls of the real JSONFileStorage.Stop() (helper process under strace) become the program of StateFile; M: TLC kills the writer between any two calls and inside every write (Recoverable, SaveCompletes) and checks 4 candidate designs (2 negative controls); R: every kill state is materialised on disk - kills inside a write at EVERY byte offset (thorough) or 96 sampled offsets plus the edges (quick) - and loaded by the real NewJSONFileStorage; the helper is also really killed by strace at each of its calls; E: the same recording, model checking, materialising and real killing for the shutdown in ENVIRONMENTS in which the temporary file cannot be created (its name taken by a directory or a dead symbolic link; the router's user owns the state file but not the directory) or cannot be renamed over the state file (sticky directory) - a save that fails as a whole and leaves the complete previous state is fine; round trip of generated states of 0..200 routers and mappings (unicode, empty, 4 kB strings, extreme and zoned times, nil sub-objects)")
 	c.Assume("process-kill semantics (completed calls visible, no reordering); power loss is not claimed", "strings are valid UTF-8 (encoding/json replaces invalid bytes)")
 	if _, err := exec.LookPath("strace"); err != nil {
 		c.Fatal("strace not available: %v", err)
@@ -958,7 +1202,10 @@ func run(c *vf.Ctx) {
 		cfg  string
 		want bool
 	}{{"StateFile_MC_temprename_7.cfg", true}, {"StateFile_MC_temprename_0.cfg", true}, {"StateFile_MC_temprename2_7.cfg", true},
-		{"StateFile_MC_truncwrite_7.cfg", false}, {"StateFile_MC_unlinkwrite_7.cfg", false}} {
+		{"StateFile_MC_truncwrite_7.cfg", false}, {"StateFile_MC_unlinkwrite_7.cfg", false},
+		// what a shutdown can come to when the temporary file cannot be renamed over the state file: giving up (holds,
+		// SaveCompletes not demanded) and writing in place instead (negative control, two write sessions)
+		{"StateFile_MC_temprefused_7.cfg", true}, {"StateFile_MC_tempinplace_7.cfg", false}} {
 		res, err := c.TLC("StateFile_MC", d.cfg, vf.TLCOpts{Workers: 1})
 		if err != nil {
 			c.Fatal("M %s: %v", d.cfg, err)
@@ -970,18 +1217,19 @@ func run(c *vf.Ctx) {
 	}
 
 	rng := rand.New(rand.NewSource(c.Seed))
-	type pair struct{ oldR, oldM, newR, newM int }
 	pairs := []pair{{-1, 0, 3, 2}, {2, 1, 5, 4}, {40, 30, 0, 0}}
 	if c.Thorough() {
 		pairs = append(pairs, pair{200, 200, 200, 200}, pair{0, 0, 1, 0}, pair{7, 0, 60, 90})
 	}
 	base := filepath.Join(c.Work, "fs")
-	for pi, p := range pairs {
-		dir := filepath.Join(base, fmt.Sprintf("pair%d", pi))
+	// analyse: one shutdown of the real code over an old state, recorded, model-checked, replayed and really killed.
+	// env == nil: an ordinary writable directory; otherwise the shutdown runs in that environment (the old state was
+	// stored under ordinary conditions before).
+	analyse := func(pi int, label, dir string, p pair, env *environment) {
 		_ = os.MkdirAll(dir, 0o755)
 		target := filepath.Join(dir, "state.json")
 		writeContent := func(name string, ct content) string {
-			f := filepath.Join(base, fmt.Sprintf("pair%d-%s.json", pi, name))
+			f := filepath.Join(base, fmt.Sprintf("%s-%s.json", strings.ReplaceAll(label, " ", ""), name))
 			b, _ := json.Marshal(ct)
 			_ = os.WriteFile(f, b, 0o644)
 			return f
@@ -991,6 +1239,10 @@ func run(c *vf.Ctx) {
 			// the old file is produced by the real code as well
 			cf := writeContent("old", genContent(rng, p.oldR, p.oldM))
 			if _, exit, err := runStrace(c, base, target, cf, ""); err != nil || exit != 0 {
+				if env != nil {
+					c.Broken("%s: helper (old content) failed: exit %d %v %s", label, exit, err, tailStr(helperStderr, 200))
+					return
+				}
 				c.Fatal("helper (old content) failed: exit %d %v", exit, err)
 			}
 			oldBytes, _ = os.ReadFile(target)
@@ -999,11 +1251,44 @@ func run(c *vf.Ctx) {
 			}
 		}
 		newCF := writeContent("new", genContent(rng, p.newR, p.newM))
-		lines, exit, err := runStrace(c, base, target, newCF, "")
-		if err != nil || exit != 0 {
-			c.Fatal("helper failed: exit %d %v", exit, err)
+		var helperEnv []string
+		shadow := filepath.Join(base, strings.ReplaceAll(label, " ", "")+"-shadow.json")
+		envNote := ""
+		if env != nil {
+			if err := env.setup(dir, target); err != nil {
+				c.Broken("environment %s: set-up failed: %v", env.name, err)
+				return
+			}
+			helperEnv = append(helperEnv, "VERIF_C18_SHADOW="+shadow)
+			if env.uid != 0 {
+				helperEnv = append(helperEnv, fmt.Sprintf("VERIF_C18_UID=%d", env.uid))
+			}
+			envNote = "; environment: " + env.what
 		}
-		prog, counts, err := program(lines, dir, target)
+		lines, exit, err := runStrace(c, base, target, newCF, "", helperEnv...)
+		refused := false // Stop() returned an error: the save failed as a whole
+		stopErr := ""
+		switch {
+		case err != nil:
+			c.Fatal("helper failed: exit %d %v", exit, err)
+		case exit == 0:
+		case env != nil && exit == 5:
+			refused = true
+			stopErr = strings.TrimSpace(tailStr(helperStderr, 300))
+			if i := strings.LastIndex(stopErr, "stop: "); i >= 0 {
+				stopErr = stopErr[i:]
+			}
+		case env != nil && exit == 3 && strings.Contains(helperStderr, "setuid:"):
+			c.Logf("%s: this process cannot change the user of a child (%s): environment skipped", label, strings.TrimSpace(tailStr(helperStderr, 120)))
+			envSkipped++
+			return
+		case env != nil:
+			c.Broken("%s: helper failed: exit %d %s", label, exit, tailStr(helperStderr, 300))
+			return
+		default:
+			c.Fatal("helper failed: exit %d %v %s", exit, err, tailStr(helperStderr, 300))
+		}
+		prog, counts, failedCalls, err := program(lines, dir, target)
 		if err != nil {
 			c.Fatal("strace log: %v", err)
 		}
@@ -1011,24 +1296,37 @@ func run(c *vf.Ctx) {
 			c.Fatal("no system calls on the state directory observed between the markers:\n%s", strings.Join(lines, "\n"))
 		}
 		newBytes, _ := os.ReadFile(target)
-		total := 0
-		for _, s := range prog {
-			if s.Op == "write" {
-				total += s.N
+		newFile := target
+		if refused {
+			// nothing (complete) need be in the state file; the helper left the serialisation it tried to store
+			newBytes, err = os.ReadFile(shadow)
+			if err != nil {
+				c.Fatal("%s: the helper left no copy of its serialisation: %v", label, err)
+			}
+			newFile = shadow
+		}
+		for ses, total := range sessions(prog) {
+			if total != len(newBytes) {
+				if env != nil {
+					// (e.g. a write that the environment cut short) - such a program cannot be made concrete
+					c.Broken("%s: the writes through one descriptor (opened by call %d) carry %d bytes, the serialisation has %d", label, ses+1, total, len(newBytes))
+					return
+				}
+				c.Fatal("observed writes (%d bytes) do not add up to the state file (%d bytes)", total, len(newBytes))
 			}
 		}
-		if total != len(newBytes) && len(prog) > 0 {
-			c.Fatal("observed writes (%d bytes) do not add up to the state file (%d bytes)", total, len(newBytes))
-		}
 		// expected snapshots
-		snapNew, err := loadSnapshot(target)
+		snapNew, err := loadSnapshot(newFile)
 		if err != nil {
-			c.Violation(vf.Key("reload-after-clean-save", pi), fmt.Sprintf("the state written by an undisturbed Stop() cannot be loaded: %v", err), map[string]any{"pair": p}, nil)
-			continue
+			if refused {
+				c.Fatal("%s: the copy of the helper's serialisation does not load: %v", label, err)
+			}
+			c.Violation(vf.Key("reload-after-clean-save", pi), fmt.Sprintf("the state written by an undisturbed Stop() cannot be loaded: %v%s", err, envNote), map[string]any{"pair": p}, nil)
+			return
 		}
 		// SaveCompletes, independently of what the file says about itself: the content the helper was given, put
 		// into a storage in this process (time stamps of mappings are taken when they are stored: masked)
-		{
+		if !refused {
 			var want content
 			data, _ := os.ReadFile(newCF)
 			_ = json.Unmarshal(data, &want)
@@ -1042,15 +1340,44 @@ func run(c *vf.Ctx) {
 			wantSnap, _ := snapshot(ref)
 			if maskCreated(wantSnap) != maskCreated(snapNew) {
 				c.Violation(vf.Key("clean-save-lost", map[bool]string{true: "no-calls", false: "differs"}[len(prog) == 0]),
-					fmt.Sprintf("an undisturbed shutdown did not store its state (old state %d routers / %d mappings, new state %d / %d; %d system calls on the state directory): the next start finds %s",
-						max(p.oldR, 0), p.oldM, p.newR, p.newM, len(prog), firstDiff(maskCreated(wantSnap), maskCreated(snapNew))),
+					fmt.Sprintf("an undisturbed shutdown did not store its state (old state %d routers / %d mappings, new state %d / %d; %d system calls on the state directory): the next start finds %s%s",
+						max(p.oldR, 0), p.oldM, p.newR, p.newM, len(prog), firstDiff(maskCreated(wantSnap), maskCreated(snapNew)), envNote),
 					map[string]any{"pair": p, "calls": len(prog)}, nil)
-				continue
+				return
 			}
 		}
+		if env != nil {
+			c.Logf("%s (%s): Stop() %s; calls the kernel refused: %s", label, env.what,
+				map[bool]string{true: "FAILED as a whole (" + stopErr + ")", false: "succeeded"}[refused], strings.Join(failedCalls, "; "))
+			if len(failedCalls) == 0 {
+				c.Logf("%s: the environment did not make itself felt in this shutdown (no call on the state directory was refused)", label)
+			}
+			envRan++
+		}
+		if refused {
+			// a save that is refused as a whole is not a crash; but what it leaves is what the next start finds
+			c.Eval(1)
+			after, lerr := loadSnapshot(target)
+			of := filepath.Join(base, "old-copy.json")
+			_ = os.WriteFile(of, oldBytes, 0o644)
+			before, _ := loadSnapshot(of)
+			switch {
+			case lerr != nil:
+				c.Violation(vf.Key("env", env.name, "failed-save", "refuses-to-start"), fmt.Sprintf("a shutdown whose save failed as a whole (%s) left a state file the next start refuses: %v%s", stopErr, lerr, envNote), map[string]any{"pair": p, "environment": env.name}, nil)
+				return
+			case after != before && after != snapNew:
+				c.Violation(vf.Key("env", env.name, "failed-save", "neither"), fmt.Sprintf("a shutdown whose save failed as a whole (%s) left neither the previous nor the new state%s", stopErr, envNote), map[string]any{"pair": p, "environment": env.name}, nil)
+				return
+			}
+			c.Distinct("env-refused|" + env.name)
+		}
 		if len(prog) == 0 {
-			c.Logf("pair %d: the shutdown made no system call on the state directory and the stored state is right", pi)
-			continue
+			if refused {
+				c.Logf("%s: the failed shutdown made no successful call on the state directory; the next start finds the complete previous state", label)
+			} else {
+				c.Logf("%s: the shutdown made no system call on the state directory and the stored state is right", label)
+			}
+			return
 		}
 		snapOld := ""
 		if oldBytes != nil {
@@ -1060,7 +1387,7 @@ func run(c *vf.Ctx) {
 			if err != nil {
 				// the old generation was written by the real code's undisturbed shutdown as well
 				c.Violation(vf.Key("reload-after-clean-save", "old"), fmt.Sprintf("a state file written by an undisturbed Stop() is refused by the next start: %v", err), map[string]any{"pair": p}, nil)
-				continue
+				return
 			}
 		} else {
 			snapOld, _ = loadSnapshot(filepath.Join(base, "does-not-exist.json"))
@@ -1069,7 +1396,7 @@ func run(c *vf.Ctx) {
 		for _, s := range prog {
 			progDesc = append(progDesc, fmt.Sprintf("%s(%s%s fd=%d n=%d trunc=%v creat=%v)", s.Op, s.Name, map[bool]string{true: "->" + s.Name2, false: ""}[s.Name2 != ""], s.Fd, s.N, s.Trunc, s.Creat))
 		}
-		c.Logf("pair %d: old %d B, new %d B, program: %s", pi, len(oldBytes), len(newBytes), strings.Join(progDesc, "; "))
+		c.Logf("%s: old %d B, new %d B, program: %s", label, len(oldBytes), len(newBytes), strings.Join(progDesc, "; "))
 		if pi == 0 {
 			c.Sample(map[string]any{"program": progDesc, "old_bytes": len(oldBytes), "new_bytes": len(newBytes)})
 		}
@@ -1080,7 +1407,12 @@ func run(c *vf.Ctx) {
 			progJSON = append(progJSON, s)
 		}
 		meta := []any{map[string]any{"oldlen": len(oldBytes), "newlen": len(newBytes)}}
-		res, err := c.TLC("StateFile_Trace", "StateFile_Trace.cfg", vf.TLCOpts{Workers: 1, Files: map[string][]byte{"prog.ndjson": vf.NDJSON(progJSON), "meta.ndjson": vf.NDJSON(meta)}})
+		traceCfg := "StateFile_Trace.cfg"
+		if refused {
+			// SaveCompletes is not demanded of a save that was refused as a whole; Recoverable and NeverRefuses are
+			traceCfg = "StateFile_TraceRefused.cfg"
+		}
+		res, err := c.TLC("StateFile_Trace", traceCfg, vf.TLCOpts{Workers: 1, Files: map[string][]byte{"prog.ndjson": vf.NDJSON(progJSON), "meta.ndjson": vf.NDJSON(meta)}})
 		if err != nil {
 			c.Fatal("M(observed): %v", err)
 		}
@@ -1117,7 +1449,7 @@ func run(c *vf.Ctx) {
 			snaps[v] = sn
 		}
 		if genBad {
-			continue
+			return
 		}
 		dump.Inits = []string{dump.Edges[0].From}
 		g := vf.BuildGraph(dump)
@@ -1170,8 +1502,13 @@ func run(c *vf.Ctx) {
 			if last.Gen > 1 {
 				key = vf.Key("kill", kind, call.Op, where, "later-generation")
 			}
-			c.Violation(key, fmt.Sprintf("%s (byte offset %d; generation %d; history: %s): %v (program: %s)", what, k, last.Gen, histString(path), lerr, strings.Join(progDesc, "; ")),
-				map[string]any{"pair": p, "program": progDesc, "history": histString(path), "byte_offset": k, "found": kind, "version_bytes": []int{len(oldBytes), len(newBytes), len(shortBytes), len(longBytes)}}, nil)
+			envName := ""
+			if env != nil {
+				envName = env.name
+				key = vf.Key("env", env.name, key)
+			}
+			c.Violation(key, fmt.Sprintf("%s (byte offset %d; generation %d; history: %s): %v (program: %s)%s", what, k, last.Gen, histString(path), lerr, strings.Join(progDesc, "; "), envNote),
+				map[string]any{"pair": p, "program": progDesc, "history": histString(path), "byte_offset": k, "found": kind, "version_bytes": []int{len(oldBytes), len(newBytes), len(shortBytes), len(longBytes)}, "environment": envName, "refused_calls": failedCalls}, nil)
 		}
 		for ei, e := range g.Edges {
 			var a killAct
@@ -1223,7 +1560,11 @@ func run(c *vf.Ctx) {
 				}
 			}
 			for _, k := range offsets {
-				res, err := replayHistory(scratch, prog, vers, len(newBytes), path, k, snaps)
+				var fixture func(string) error
+				if env != nil {
+					fixture = env.fixture
+				}
+				res, err := replayHistory(scratch, prog, vers, len(newBytes), path, k, snaps, fixture, refused)
 				if err != nil {
 					c.Fatal("replay %s: %v", histString(path), err)
 				}
@@ -1252,17 +1593,24 @@ func run(c *vf.Ctx) {
 
 		// ---- real kills: strace kills the helper at each call of the program
 		for ci, s := range prog {
-			if !c.Thorough() && pi > 0 && ci%2 == 1 {
+			if !c.Thorough() && pi > 0 && ci%2 == 1 && env == nil {
 				continue
 			}
+			_ = os.Chmod(dir, 0o755)
 			_ = os.RemoveAll(dir)
 			_ = os.MkdirAll(dir, 0o755)
 			if oldBytes != nil {
 				_ = os.WriteFile(target, oldBytes, 0o644)
 			}
+			if env != nil {
+				if err := env.setup(dir, target); err != nil {
+					c.Broken("environment %s: set-up failed: %v", env.name, err)
+					return
+				}
+			}
 			// the n-th call of this syscall name in the process (the load phase is deterministic)
 			inject := fmt.Sprintf("%s:signal=KILL:when=%d", s.kind, s.nth+1)
-			_, exit, err := runStrace(c, base, target, newCF, inject)
+			_, exit, err := runStrace(c, base, target, newCF, inject, helperEnv...)
 			if err != nil {
 				c.Fatal("kill run: %v", err)
 			}
@@ -1282,10 +1630,25 @@ func run(c *vf.Ctx) {
 			c.Distinct(fmt.Sprintf("realkill/%d/%d", pi, ci))
 			if found != "new" && found != "old" {
 				key := vf.Key("kill", found, s.Op, "between")
-				c.Violation(key, fmt.Sprintf("writer really killed (SIGKILL by strace, exit %d) on entering call %d %s: next start %s: %v", exit, ci+1, s.raw, found, lerr),
+				if env != nil {
+					key = vf.Key("env", env.name, key)
+				}
+				c.Violation(key, fmt.Sprintf("writer really killed (SIGKILL by strace, exit %d) on entering call %d %s: next start %s: %v%s", exit, ci+1, s.raw, found, lerr, envNote),
 					map[string]any{"pair": p, "program": progDesc, "kill_call": ci + 1, "found": found, "inject": inject}, nil)
 			}
 		}
+		_ = os.Chmod(dir, 0o755)
+	}
+	onlyE := os.Getenv("VERIF_C18_ONLY") == "E" // (development aid: stage E alone; the run is then reported as broken)
+	for pi, p := range pairs {
+		if onlyE {
+			break
+		}
+		analyse(pi, fmt.Sprintf("pair %d", pi), filepath.Join(base, fmt.Sprintf("pair%d", pi)), p, nil)
+	}
+	if onlyE {
+		environments(c, rng, base, analyse)
+		c.Fatal("VERIF_C18_ONLY=E: the other stages were not run")
 	}
 
 	// ---- round trip
@@ -1367,6 +1730,8 @@ func run(c *vf.Ctx) {
 	}
 	c.Stage("R", map[string]any{"pairs": len(pairs), "roundtrips": rounds * len(sizes)})
 	instanceGenerations(c)
+	// ---- E: the shutdown in unusual environments (last: the stages above see the same random stream as before)
+	environments(c, rng, base, analyse)
 }
 
 var reCreated = regexp.MustCompile(`"S":\d+,"N":\d+`)
